@@ -36,6 +36,13 @@ pub struct Walrus {
     pub(super) fsync_schedule: FsyncSchedule,
 }
 
+impl Drop for Walrus {
+    fn drop(&mut self) {
+        // a clean shutdown leaves the latest clean/dirty state of every topic in the marker file
+        let _ = self.topic_clean_tracker.shutdown();
+    }
+}
+
 impl Walrus {
     pub fn new() -> std::io::Result<Self> {
         Self::with_consistency(ReadConsistency::StrictlyAtOnce)
